@@ -92,6 +92,14 @@ static void run(const std::string &cfg, bool q, bool f, int rounds, uint64_t see
             if (q) check_queries<K, Eps, EpsRec>(d, cfg);
             if (f) check_files<K, Eps, EpsRec>(d, cfg);
         }
+    // sizes that are multiples of common I/O block sizes (the key block of the file is written/read in bulk by some implementations)
+    if (f)
+        for (size_t n : {size_t(4096), size_t(8192), size_t(16384), size_t(32768)}) {
+            std::vector<K> d(n);
+            for (size_t i = 0; i < n; ++i) d[i] = K((std::is_signed_v<K> ? -1000 : 0) + K(i / 2));
+            ++R.distinct;
+            check_files<K, Eps, EpsRec>(d, cfg);
+        }
     for (int r = 0; r < rounds; ++r) {
         auto d = vl::random_sorted<K>(rng, 1 + rng() % 2500, r % 4);
         if (d.empty()) continue;
